@@ -585,9 +585,10 @@ impl SequenceMatcher {
                 // This maintains the two-pointer invariant (b_ptr points to the last B that could match)
                 b_ptr = latest_b_ptr;
             } else {
-                // B is not before A (ts_b >= ts_a), advance b_ptr to find earlier B events
-                // Since indices are sorted by timestamp, we need to advance b_ptr
-                b_ptr += 1;
+                // B is not before A (ts_b >= ts_a). Indices are sorted by timestamp and b_ptr
+                // never moves past a B that precedes the current A, so no B precedes this A:
+                // skip it, later A events can still be preceded by the B at b_ptr.
+                a_ptr += 1;
             }
         }
 
